@@ -292,7 +292,7 @@ def body(case, rec, cap):
     from vlib.meshdrive import exc_site
     import src.error_estimator as eem
     try:
-        live = Live(case['spec'])
+        live = Live(case['spec'], min_hx=1e-4)
         for op in case['ops']:
             if len(live.mesh.leaf_elements) >= cap:
                 break
@@ -332,7 +332,25 @@ def body(case, rec, cap):
                     cand = st_el
                 elif N >= 17 and st_el and case['ei'] % 3 == 0:
                     cand = st_el
+            if N >= 17 and case['ei'] % 2 == 1:
+                # bias towards the closing seam (its patches select the wrapped / two-piece variants)
+                seam = [el for el in elems if el.space_interval[0] == 0 or float(el.space_interval[1]) == g.L]
+                if seam:
+                    cand = seam
             e = cand[case['ei'] % len(cand)]
+            if case['res']['type'] == 'smooth':
+                # the figure of the property (1e-4 at order 17) is for residuals resolved by the rule on the patch:
+                # the wave numbers are scaled so that |k| x (longest union patch of this element) <= 3
+                bb = live.skey(e)
+                lens = [float(e.space_interval[1] - e.space_interval[0])]
+                for nb in neighbours_space(live, bb):
+                    o = live.leaf_by_key()[nb.key]
+                    lens.append(lens[0] + float(o.space_interval[1] - o.space_interval[0]))
+                kmax = max(abs(case['res']['k1']), abs(case['res']['k2']), 1e-9)
+                scale = min(1.0, 3.0 / (kmax * max(lens)))
+                rs = dict(case['res'], k1=case['res']['k1'] * scale, k2=case['res']['k2'] * scale)
+                ref = Ref(live, g, rs)
+                residual = ref.res
             rf, kinds, excl = reference_indicators(ref, live, e, True, rec)
             if excl:
                 rec.exclude(excl)
